@@ -123,7 +123,7 @@ def run(ctx):
                 raise vlib.InfraError("deviation %s on, but TLC reports %r instead of one of %s: mis-modelled" % (
                     dev, r.violated, targets))
         jobs.append(demo)
-    nsim, depth = (3000, 8) if th else (150, 7)
+    nsim, depth = (800, 8) if th else (150, 7)
     jobs.insert(1, job("sim", lambda: rtlib.model(ctx, FAM, depth, invs=INVS, emit=True, simulate=nsim, depth=depth * 14 + 5,
                                                   seed=ctx.seed * 13 + 1, label="C14-sim", timeout=900, maxlines=4)))
     if th:
